@@ -13,9 +13,18 @@ CHECKS = {
              "float()/str() oracle, proved about Gallina definitions REGENERATED on every run from "
              "scalar/builtins/*.py and utils/values.py by a fail-closed ast translator; the prelude "
              "(semantics of isinstance/int/float/str/isfinite/floor/comparisons) is validated by running "
-             "the real scalar objects on a boundary+random pool and comparing inside Coq.",
+             "the real scalar objects on a boundary+random pool and comparing inside Coq. Date/Time/DateTime "
+             "(Properties/C10Temporal.v, 17 theorems for ALL dates and times): the translator extracts the "
+             "strptime formats and the isoformat() part from the three modules (strict shape match, "
+             "Gen/Temporal_gen.v); Model/Temporal.v models CPython's _strptime regex alternatives, the datetime "
+             "range checks, isoformat and split; proved: canonical strings of real calendar/clock values are "
+             "accepted and denote them, nothing else is, output renders the canonical text, input/output are "
+             "mutually inverse on produced values, literal = variable. The library model is tied by running the "
+             "real scalars on canonical / invalid-calendar / near-miss spellings / foreign values (compared "
+             "inside Coq) and the laws are searched for a concrete failing input on the real scalars.",
         note="Trusted: Coq kernel + vm_compute, translate.py, Py/Prelude.v, float(str)/str(value) oracles; "
-             "Date/Time/DateTime not modelled (library strptime/isoformat).",
+             "Model/Temporal.v as a model of datetime.strptime/isoformat on ASCII input (non-ASCII decimal digits, "
+             "tz-aware values, subclasses outside it).",
         design="4 C10"),
     "C04": dict(
         technique="Coq refinement proof impl-model = spec-model + differential correspondence vs real engine",
